@@ -87,6 +87,19 @@ func (bs *sqlPartStore) PutPart(ctx context.Context, tx database.Tx, partId part
 		}
 	}
 
+	// An empty part still needs a (zero-length) chunk; otherwise GetPart could
+	// not tell it apart from a part that was never stored.
+	if chunkIndex == 0 {
+		partContentEntity := partContent.Entity{
+			Id:         ptrutils.ToPtr(partId),
+			ChunkIndex: 0,
+			Content:    []byte{},
+		}
+		if saveErr := bs.partContentRepository.SavePartContent(ctx, tx.SqlTx(), bs.partStoreId, &partContentEntity); saveErr != nil {
+			return saveErr
+		}
+	}
+
 	return nil
 }
 
